@@ -16,7 +16,7 @@ PROPS_MODULES = ['RTV.Props.C07', 'RTV.Props.C07Ranges', 'RTV.Props.C07TimePerio
 GEN = ['chartables', 'dtmaps']
 REQUIRED_THEOREMS = ['clock24', 'clock24_partial', 'clock24_hour0_unresolved', 'clock24_hour0_repaired', 'clock12',
                      'clock12_partial', 'ambiguous_two_readings', 'date_at_time', 'date_at_time_unambiguous',
-                     'date_at_time_ambiguous', 'toPm_twelve_apart', 'short_time_shape', 'clock_cultures',
+                     'date_at_time_ambiguous', 'date_at_time_relative', 'date_at_time_yearless', 'toPm_twelve_apart', 'short_time_shape', 'clock_cultures',
                      'date_at_time_cultures', 'designator_cultures', 'afternoon_12_both_readings', 'afternoon_12_repaired',
                      'clock24_zh', 'zh_ampm_any_hour_witness', 'zh_1913_guarded', 'zh_designator_examples',
                      'date_at_designator', 'date_at_designator_cultures', 'date_word_shift', 'night_alone_is_2am',
